@@ -94,6 +94,6 @@ def run(tier, replay):
     c.cov["evaluations"] = c.cov.get("stream_calls_validated", 0)
     c.cov["rule"] = ("sequential histories (14 steps, up to 6 streams, 6 scopes x 4 start kinds) with every TryNext judged; concurrent runs (3 writers x 12 bursts, 5 blocked "
                      "consumers, yields at hook windows); distinct_nontrivial counts distinct (start kind, scope shape, outcome) tuples")
-    c.assumptions += ["liveness on real code is a bounded-wait observation: 3 s after the writers went quiet, 1 s for close/cancel wake-ups",
+    c.assumptions += ["liveness on real code is a bounded-wait observation: 15 s after the writers went quiet, 5 s for close/cancel wake-ups",
                       "startAt uses timestamps of retained events; pipelines are unsupported by lungo (documented panic) and not used"]
     return c.finish()
